@@ -14,7 +14,7 @@ def eval_expr(f, i, val):
     k = n["k"]
     c = n["c"]
     t = key(f, i)
-    if t in val:
+    if t in val and k not in ("CStyleCastExpr", "CXXStaticCastExpr", "CXXReinterpretCastExpr", "CXXFunctionalCastExpr"):
         return val[t]
     if "cv" in n:
         return n["cv"]
@@ -34,7 +34,13 @@ def eval_expr(f, i, val):
             return eval_expr(f, init, val)
         return None
     if k in ("CStyleCastExpr", "CXXStaticCastExpr", "CXXReinterpretCastExpr", "CXXFunctionalCastExpr", "CXXConstCastExpr") and c:
-        return eval_expr(f, c[0], val)
+        v = eval_expr(f, c[0], val)
+        if v is not None and isinstance(v, int) and v < 0:
+            ty = n.get("t", "")
+            bits = {"unsigned long": 64, "unsigned long long": 64, "unsigned int": 32, "unsigned short": 16, "unsigned char": 8}.get(ty)
+            if bits:
+                v = v % (1 << bits)
+        return v
     if k == "UnaryOperator":
         a = eval_expr(f, c[0], val)
         if a is None:
@@ -182,8 +188,19 @@ def walk(f, start_block, val, limit=400, stop_at_loop_back=True):
         for e in blk["el"]:
             if isinstance(e, int):
                 seen.append(e)
-                if f.nodes[e]["k"] == "ReturnStmt":
+                ne = f.nodes[e]
+                if ne["k"] == "ReturnStmt":
                     return seen, e
+                # a store of a determined value into a valuated variable updates the valuation (e.g. `sent = 0`)
+                if ne["k"] == "BinaryOperator" and ne["op"] == "=":
+                    lk = key(f, ne["c"][0])
+                    if lk in val:
+                        nv = eval_expr(f, ne["c"][1], val)
+                        val = dict(val)
+                        if nv is None:
+                            del val[lk]
+                        else:
+                            val[lk] = nv
         if isinstance(blk.get("term"), int) and f.nodes[blk["term"]]["k"] == "ReturnStmt":
             return seen, blk["term"]
         succ = blk["succ"]
